@@ -390,7 +390,7 @@ func ruleCoeffSign(w *World, r *RuleResult) {
 
 func isNonNegConst(v ssa.Value) bool {
 	k, ok := v.(*ssa.Const)
-	return ok && k.Value != nil && k.Int64() >= 0
+	return ok && k.Value != nil && ci(k) >= 0
 }
 
 // ---- R4 ---------------------------------------------------------------------
